@@ -112,7 +112,10 @@ fn enc_case(em: &mut Emitter, unused: u8, bits: &[u8]) {
                 let mut exp = vec![unused]; exp.extend_from_slice(bits);
                 let t = tlv(0x03, &exp);
                 let ok = content == exp && el == exp.len() && w1 == t && w2 == t && l1 == t.len() && l2 == t.len();
-                (Ints::new().n(R_OK).bytes(&content).n(el), if ok { Oracle::Pass } else { Oracle::Fail("encode".into()) }, true)
+                let bs = BitString::new(unused, bytes::Bytes::copy_from_slice(bits));
+                let awkward = awkward_targets(&t, 1 + bits.len() % 3, &|tg| { let mut tg = tg; bs.encode_ref().write_encoded(Mode::Der, &mut tg) })
+                    .or_else(|| awkward_targets(&t, 1 + bits.len() % 2, &|tg| { let mut tg = tg; BitString::encode_slice(bits, unused).write_encoded(Mode::Ber, &mut tg) }));
+                (Ints::new().n(R_OK).bytes(&content).n(el), if !ok { Oracle::Fail("encode".into()) } else if let Some(what) = awkward { Oracle::Fail(what.into()) } else { Oracle::Pass }, true)
             }
             None => (Ints::new().n(R_PANIC), Oracle::Pass, false),
         }
